@@ -13,5 +13,4 @@ INVARIANT RatioFresh
 INVARIANT FixedSnapshot
 INVARIANT MemoFresh
 INVARIANT BodyOnce
-VIEW View
 CHECK_DEADLOCK FALSE
